@@ -113,11 +113,16 @@ func NumWorkers() int {
 
 // FinishEnum assembles an exploration-level outcome from collectors.
 func FinishEnum(property string, tier Tier, level string, start time.Time, rule string, assumptions []string, exhaustive bool, extra map[string]interface{}, require []string, es ...*Enum) int {
+	return FinishEnumWithSelf(property, tier, level, start, rule, assumptions, exhaustive, extra, require, nil, es...)
+}
+
+// FinishEnumWithSelf is FinishEnum with additional harness self-check failures.
+func FinishEnumWithSelf(property string, tier Tier, level string, start time.Time, rule string, assumptions []string, exhaustive bool, extra map[string]interface{}, require []string, selfCheck []string, es ...*Enum) int {
 	total := NewEnum()
 	for _, e := range es {
 		total.Merge(e)
 	}
-	o := &Outcome{Property: property, Tier: tier, Level: level, Start: start, Assumptions: assumptions, Violations: total.Viols}
+	o := &Outcome{Property: property, Tier: tier, Level: level, Start: start, Assumptions: assumptions, Violations: total.Viols, SelfCheck: selfCheck}
 	for _, r := range require {
 		if total.Distinct[r] == 0 {
 			o.SelfCheck = append(o.SelfCheck, "non-vacuity: observation class never seen: "+r)
